@@ -3,6 +3,7 @@ C06 — ExtractLicenses returns exactly the distinct terms of the expression.
 -/
 import SpdxVerif.Lemmas.Flatten
 import SpdxVerif.Lemmas.Match
+import SpdxVerif.Lemmas.AllowedList
 namespace Spdx.C06
 
 /-- what `ExtractLicenses` returns for a valid expression -/
@@ -59,5 +60,59 @@ theorem self_satisfies (n : Node) (A : List Node) (h : ∀ t ∈ leaves n, t ∈
   | or l r ihl ihr =>
     simp only [eval, leaves, List.mem_append, Bool.or_eq_true] at *
     exact Or.inl (ihl (fun t ht => key t (Or.inl ht)))
+
+/-- **round trip**: the canonical text of every term of every valid expression is itself a valid expression that parses
+    back to that very term (scanner + normalisation cascade + parser, for all byte strings; relative to the shipped tables
+    through the obligations `lists_fold_distinct`, `deprecated_have_no_suffix`, `listed_foldClean`) -/
+theorem render_roundtrip (s : Bytes) (n l : Node) (hp : parse s = .ok n) (hl : l ∈ leaves n) : parse (render l) = .ok l :=
+  parse_render l (parse_leavesOK s n hp l hl) (leaves_isLeaf n l hl)
+
+/-- **every returned string is itself a valid single-term expression that extracts to itself** -/
+theorem extract_self (s : Bytes) (out : List Bytes) (x : Bytes) (h : extract s = some out) (hx : x ∈ out) :
+    valid x = true ∧ extract x = some [x] := by
+  cases hp : parse s with
+  | error e => simp [extract, hp] at h
+  | ok n =>
+    obtain ⟨t, ht, rfl⟩ := (extract_mem s n out hp h x).mp hx
+    have hr := render_roundtrip s n t hp ht
+    have hleaf := leaves_isLeaf n t ht
+    refine ⟨by simp [valid, hr], ?_⟩
+    simp only [extract, hr, expand, hleaf, ↓reduceIte]
+    simp [dedup]
+
+/-- **using the returned list as the allowed list always satisfies the expression** -/
+theorem satisfies_own_terms (s : Bytes) (out : List Bytes) (h : extract s = some out) : satisfies s out = .ok true := by
+  cases hp : parse s with
+  | error e => simp [extract, hp] at h
+  | ok n =>
+    have hmem := extract_mem s n out hp h
+    -- every returned string denotes the term it renders
+    have hden : ∀ x ∈ out, ∃ t ∈ leaves n, x = render t ∧ leafOf x = some t := by
+      intro x hx
+      obtain ⟨t, ht, rfl⟩ := (hmem x).mp hx
+      refine ⟨t, ht, rfl, ?_⟩
+      simp [leafOf, render_roundtrip s n t hp ht, leaves_isLeaf n t ht]
+    obtain ⟨A, hA⟩ := (toNodes_ok_iff_all out).mpr (fun x hx => by
+      obtain ⟨t, _, _, ht⟩ := hden x hx; rw [ht]; rfl)
+    have hne : out ≠ [] := by
+      obtain ⟨t, ht⟩ := exists_leaf n
+      intro he
+      have := (hmem (render t)).mpr ⟨t, ht, rfl⟩
+      rw [he] at this; cases this
+    have hall : ∀ t ∈ leaves n, t ∈ sortAndDedupArray A := by
+      intro t ht
+      rw [sortAndDedupArray_mem A (toNodes_leafOK hA)]
+      rw [toNodes_mem hA]
+      have hx := (hmem (render t)).mpr ⟨t, ht, rfl⟩
+      obtain ⟨t', ht', hr, hl⟩ := hden _ hx
+      refine ⟨render t, hx, ?_⟩
+      simp [leafOf, render_roundtrip s n t hp ht, leaves_isLeaf n t ht]
+    unfold satisfies
+    rw [hp]
+    cases out with
+    | nil => exact absurd rfl hne
+    | cons x xs =>
+      simp only [List.isEmpty_cons, Bool.false_eq_true, ↓reduceIte, hA]
+      rw [self_satisfies n _ hall]
 
 end Spdx.C06
